@@ -177,6 +177,26 @@ fn run_case(raw: &Case, rounds: u32) -> Outcome {
         Ok(Ok(b)) => b,
     };
     o.file_len = bytes0.len();
+    // one case in sixteen (by content): written to a path that already holds a longer file
+    if bytes0.iter().step_by(97).fold(0u32, |a, &b| a.wrapping_mul(31).wrapping_add(b as u32)) % 16 == 0 {
+        let dir = vcheck::engine::scratch("c14save");
+        let path = dir.path().join("tile.adt");
+        if std::fs::write(&path, vec![0xEEu8; bytes0.len() + 5000]).is_ok() {
+            match guard("write_to_file", || built.write_to_file(&path)) {
+                Err(f) => o.fails.push(f),
+                Ok(Err(e)) => o.fails.push(Fail::new("write-to-file-error", format!("BuiltAdt::write_to_file failed where to_bytes succeeds: {e}"))),
+                Ok(Ok(())) => {
+                    let got = std::fs::read(&path).unwrap_or_default();
+                    if got != bytes0 {
+                        o.fails.push(Fail::new(
+                            "write-to-file-over-existing-file-differs",
+                            format!("write_to_file over an existing {}-byte file leaves {} bytes, to_bytes gives {}", bytes0.len() + 5000, got.len(), bytes0.len()),
+                        ));
+                    }
+                }
+            }
+        }
+    }
     let (w0, wf) = walk::check_file(&bytes0, "built file");
     o.fails.extend(wf);
     if let Some(w) = &w0 {
